@@ -314,3 +314,58 @@ func ZZVerif_C13_Save() {
 	zzverif.Assert("and it is the last one", errLast == nil && last != nil && last.CertificateID == nw.id)
 	zzverif.Reach("replaced")
 }
+
+// ZZVerif_C13_Inconsistent: the Agglayer reports HIST settled certificates and, as its latest non-settled certificate, one at a
+// height at or below the last settled height (open or in error) - answers that contradict each other. The start-up check
+// refuses and leaves the database as it was, whether the database is lost or holds the settled certificates.
+func ZZVerif_C13_Inconsistent() {
+	hist := zzverif.Param("HIST") // >= 1
+	local := zzverif.Param("LOCAL")
+	ctx := context.Background()
+	net := zzverif.U32("networkID")
+	chain := make([]*zzTruth, hist)
+	prevLER, nextFrom := common.Hash(zzverif.Hash("startLER")), uint64(1)
+	for i := 0; i < hist; i++ {
+		span := uint64(zzverif.U32("span"))
+		t := &zzTruth{id: zzverif.Hash("certID"), prevLER: prevLER, newLER: zzverif.Hash("newLER"), from: nextFrom, to: nextFrom + span,
+			createdAt: zzverif.U32("createdAt"), status: agglayertypes.Settled}
+		for j := 0; j < i; j++ {
+			zzverif.Assume(chain[j].id != t.id)
+		}
+		chain[i] = t
+		prevLER, nextFrom = t.newLER, t.to+1
+	}
+	stale := &zzTruth{id: zzverif.Hash("staleID"), prevLER: zzverif.Hash("stalePrev"), newLER: zzverif.Hash("staleLER"), from: 1, to: 1 + uint64(zzverif.U32("sspan")),
+		createdAt: zzverif.U32("screated"), status: agglayertypes.InError}
+	if !zzverif.Bool("staleInError") {
+		stale.status = zzOpenStatus("staleStatus")
+	}
+	for _, t := range chain {
+		zzverif.Assume(t.id != stale.id)
+	}
+	sh := zzverif.Int("staleHeight", 0, hist-1)
+	withPrev := zzverif.Bool("headerHasPrevLER")
+	ag := &zzAgglayer{settled: chain[hist-1].header(uint64(hist-1), net, withPrev), pending: stale.header(uint64(sh), net, withPrev)}
+	for i, t := range chain {
+		ag.all = append(ag.all, t.header(uint64(i), net, withPrev))
+	}
+	st, err := aggsenderdb.NewAggSenderSQLStorage(log.GetDefaultLogger(), aggsenderdb.AggSenderSQLStorageConfig{DBPath: zzverif.TempDB("aggsender")})
+	if err != nil {
+		zzverif.Assert("storage opens", false)
+		return
+	}
+	if local == 2 {
+		for i := 0; i < hist; i++ {
+			zzverif.Assume(st.SaveLastSentCertificate(ctx, chain[i].local(uint64(i), agglayertypes.Settled)) == nil)
+		}
+	}
+	before, errB := st.GetLastSentCertificateHeader()
+	zzverif.Assert("read before", errB == nil)
+	checker := statuschecker.NewCertStatusChecker(log.GetDefaultLogger(), st, ag, net)
+	err = statuschecker.ZZVerifInitialStatusOnce(ctx, checker)
+	after, errA := st.GetLastSentCertificateHeader()
+	zzverif.Assert("read after", errA == nil)
+	zzverif.Assert("contradicting Agglayer answers stop the start-up check", err != nil)
+	zzverif.Assert("and leave the database as it was", (before == nil && after == nil) || (before != nil && after != nil && zzSameHeader(before, after)))
+	zzverif.Reach("refused")
+}
